@@ -516,8 +516,8 @@ def run_c15(argv):
             if [d.idxfromfile for d in dupes] != dupidx:
                 chk.violation({"kind": "dupes-vs-indices", "mode": str(mode)}, "reported reactions and indices disagree", input=show[:12])
             if (dupidx != want_dup or first_idx != want_first) and mode in (None, "brief") and (dupidx, first_idx) == dict_semantics(lst, mode):
-                both = {"E", "e-"} <= {x for r in lst for x in r["re"] + r["pr"]}
-                cause = "+".join(c for c, on in (("untyped", has_unknown and mode is None), ("electron-spelling", both)) if on)
+                # (the spelling of equal species no longer matters for hashing since the fix of F16)
+                cause = "untyped" if (has_unknown and mode is None) else "other"
                 chk.violation({"kind": "default-mode-dict-semantics", "cause": cause},
                               f"default mode compares with stored representatives of equal hash only ({cause}): reported "
                               f"{dupidx}, equivalent-to-earlier are {want_dup}", input=show[:20],
